@@ -48,7 +48,7 @@ PROPS = {
         "engines": [storm(sq=12, st=12), storm("venue", arg="C16:venue", sq=4, st=4)],
         "rule": "each evaluation is the structural predicate on one MarginfiAccount after one instruction or at one commit; distinct = (where, number of active positions, tag set, flags); the venue engine drives worlds with up to 10 pass-through banks of three kinds (Kamino, Solend, Drift) and saturates the integration cap (one account enters every venue bank in turn); the storm engine adds liquidations by fresh accounts (positions opened inside a liquidation next to held ones) and by callers that name a bank twice among the liquidator's observation accounts",
         "assumptions": COMMON_ASSUMPTIONS + ["integration positions of all three kinds (Kamino, Solend, Drift) are opened through the venue stand-ins and through liquidation"],
-        "floors": {"quick": {"scen.bankrupt_account_moved": 6, "scen.wipeout_collateral_fully_seized": 2, "C16.liquidations_by_debtor_of_collateral_bank": 4, "ix_ok/Deposit": 500, "ix_ok/Borrow": 100, "ix_ok/KaminoDeposit": 200, "ix_ok/SolendDeposit": 100, "ix_ok/DriftDeposit": 100, "venue.cap_probes_saturated_at_8": 3, "C16.liquidation_opened_position_next_to_held_ones": 100, "C16.liquidations_by_holder_of_collateral_bank_only": 8}},
+        "floors": {"quick": {"C16.liquidations_by_holder_of_a_third_bank_only": 5, "scen.bankrupt_account_moved": 6, "scen.wipeout_collateral_fully_seized": 2, "C16.liquidations_by_debtor_of_collateral_bank": 4, "ix_ok/Deposit": 500, "ix_ok/Borrow": 100, "ix_ok/KaminoDeposit": 200, "ix_ok/SolendDeposit": 100, "ix_ok/DriftDeposit": 100, "venue.cap_probes_saturated_at_8": 3, "C16.liquidation_opened_position_next_to_held_ones": 100, "C16.liquidations_by_holder_of_collateral_bank_only": 8}},
     },
     "C17": {
         "engines": [storm(sq=12, st=12), storm("venue", arg="C17:venue", sq=4, st=4)],
@@ -78,7 +78,7 @@ PROPS = {
         "engines": [storm("scen")],
         "rule": "each evaluation is one receivership start/end instruction or one committed receivership transaction: reference maintenance health at start/end, seized vs repaid (equity values) against the premium limit located by bisection, transaction shape, surviving markers; distinct = (small account, #assets, #liabs, seized>0, repaid>0) and committed shapes",
         "assumptions": COMMON_ASSUMPTIONS + ["'none via CPI' is applied to start and end (what the program checks); see DESIGN 4 C10"],
-        "floors": {"quick": {"scen.receivership_whole_debt_rounds": 40, "admin.emissions_in_receivership_rounds": 10, "scen.receivership_over_reduce_only_collateral": 30, "scen.receivership_over_capped_collateral": 30, "C10.directed_short_instruction_shapes": 200, "C10.brackets_started": 50, "C10.brackets_committed": 5, "scen.receivership_boundary_found": 5, "scen.receivership_price_boundary_found": 8}},
+        "floors": {"quick": {"scen.takeover_attempts_after_a_same_second_cure": 10, "scen.receivership_whole_debt_rounds": 40, "admin.emissions_in_receivership_rounds": 10, "scen.receivership_over_reduce_only_collateral": 30, "scen.receivership_over_capped_collateral": 30, "C10.directed_short_instruction_shapes": 200, "C10.brackets_started": 50, "C10.brackets_committed": 5, "scen.receivership_boundary_found": 5, "scen.receivership_price_boundary_found": 8}},
     },
     "C11": {
         "engines": [storm()],
@@ -122,7 +122,7 @@ PROPS = {
         "engines": [storm("admin")],
         "rule": "each evaluation is one bank image changed by a delegated-admin instruction (field-level diff against the role's mask built with offset_of!), one instruction executed on a frozen bank (protected fields and freeze bit), or one deleverage withdrawal (reference daily window); distinct = (instruction, set of changed fields) pairs",
         "assumptions": COMMON_ASSUMPTIONS,
-        "floors": {"quick": {"admin.bank_metadata_write_by_foreign_group_metadata_admin": 60, "scen.deleverage_withdraw_all_above_limit_attempts": 10, "scen.staked_propagate_after_feed_rotation_accepted": 20, "scen.first_withdrawal_of_a_new_day_attempts": 5, "scen.two_deleverage_starts_one_end_attempts": 30, "ix_ok/ForceTokenlessRepayComplete": 200, "C12.delegated_instructions/ConfigureBankInterestOnly": 100, "C12.delegated_instructions/ConfigureBankLimitsOnly": 100, "C12.delegated_instructions/ConfigureBankEmode": 100, "C12.delegated_instructions/UpdateEmissionsParameters": 100, "C12.instructions_on_frozen_bank/ConfigureBank": 50, "C12.instructions_on_frozen_bank/PropagateStakedSettings": 10, "C12.deleverage_withdrawals": 5, "scen.whale_deleverage_rejected/6101": 20}},
+        "floors": {"quick": {"scen.deleverage_withdraw_boundary_found": 4, "admin.bank_metadata_write_by_foreign_group_metadata_admin": 60, "scen.deleverage_withdraw_all_above_limit_attempts": 10, "scen.staked_propagate_after_feed_rotation_accepted": 20, "scen.first_withdrawal_of_a_new_day_attempts": 5, "scen.two_deleverage_starts_one_end_attempts": 30, "ix_ok/ForceTokenlessRepayComplete": 200, "C12.delegated_instructions/ConfigureBankInterestOnly": 100, "C12.delegated_instructions/ConfigureBankLimitsOnly": 100, "C12.delegated_instructions/ConfigureBankEmode": 100, "C12.delegated_instructions/UpdateEmissionsParameters": 100, "C12.instructions_on_frozen_bank/ConfigureBank": 50, "C12.instructions_on_frozen_bank/PropagateStakedSettings": 10, "C12.deleverage_withdrawals": 5, "scen.whale_deleverage_rejected/6101": 20}},
     },
     "C13": {
         "engines": [storm("admin")],
